@@ -252,7 +252,7 @@ def run(chk, repo):
             chk.decide(bool(before), "R2.3.complete", "%s:blocks" % mmod.relpath, "yield leaf [%s] appends the pulled item first" % ctxt,
                        why="a block is emitted on an item that is not part of it: the stage reads past the items the "
                            "block needs (more than (j-1)*hop+size for j blocks)", node=ys[0])
-    chk.floor("R2.3.complete", nlv, 2, "yielding leaves of blocks")
+    chk.floor("R2.3.complete", nlv, 1, "yielding leaves of blocks (2 on the confirmed tree: one per loop)")
 
     # resample: the window advances only once the position is strictly past its centre
     chk.rule("R2.4", "resample look-ahead: a new input sample is pulled only while idx > threshold (strictly) and each pull "
